@@ -51,7 +51,7 @@ impl<'a> Tokenizer<'a> {
             "nanometer" | "nanometers" | "nm" => {
                 Some(TokenKind::Unit(Unit::Distance(DistanceUnit::Nanometer)))
             }
-            "micrometer" | "micrometers" | "µm" => {
+            "micrometer" | "micrometers" | "µm" | "μm" => {
                 Some(TokenKind::Unit(Unit::Distance(DistanceUnit::Micrometer)))
             }
             "millimeter" | "millimeters" | "mm" => {
@@ -150,7 +150,7 @@ impl<'a> Tokenizer<'a> {
                 '√' => self.add_single_char_token(TokenKind::Sqrt),
                 '•' => self.add_single_char_token(TokenKind::Dot),
                 '×' => self.add_single_char_token(TokenKind::Cross),
-                'a'..='z' | 'A'..='Z' | '_' | 'π' | 'ϕ' | '°' | 'µ' => {
+                'a'..='z' | 'A'..='Z' | '_' | 'π' | 'ϕ' | '°' | 'µ' | 'μ' => {
                     self.tokenize_identifier()
                 }
                 '0'..='9' => self.tokenize_number(),
